@@ -172,4 +172,17 @@ def ciede2000Tag [ScT α] (x1 x2 : Lab3 α) : String :=
   let s := if h1 + h2 < 360.0 then "lt360" else "ge360"
   z ++ "-" ++ d ++ "-" ++ s
 
+/-- The discontinuity the property exempts: the primed hue angles differ by 180°
+(up to float noise in the angle computation). -/
+def ciede2000AtDiscontinuity [ScT α] (x1 x2 : Lab3 α) : Bool :=
+  let c1 := sqrt (powi x1.a 2 + powi x1.b 2)
+  let c2 := sqrt (powi x2.a 2 + powi x2.b 2)
+  let cBar := (c1 + c2) / 2.0
+  let k := 1.0 - sqrt (powi cBar 7 / (powi cBar 7 + pow25_7))
+  let a1 := x1.a + (x1.a / 2.0) * k
+  let a2 := x2.a + (x2.a / 2.0) * k
+  let h1 := getHPrime x1.b a1
+  let h2 := getHPrime x2.b a2
+  decide (abs (abs (h1 - h2) - 180.0) ≤ 0.000000001)
+
 end Pastel
